@@ -30,7 +30,7 @@ def inject(rng, d):
     by = lambda ts: [n for n in nodes if n[1] in ts]
     kind = rng.choice(["fanin_on_source", "fanin_on_source", "second_driver", "bbout_load", "bbout_nonbuf", "untype", "unsup",
                        "dotted", "drop_pin", "mistype_pin", "undriven", "unloaded", "single_in", "harmless_edge", "harmless_out",
-                       "registry_only", "pin_extra_fanout"])
+                       "registry_only", "pin_extra_fanout", "multi_dot_clean", "multi_dot_clean", "dotted_instance"])
     if kind == "fanin_on_source":
         c = by(["input", "0", "1", "x", "bb_output"])
         if c and rng.random() < 0.5:
@@ -89,6 +89,19 @@ def inject(rng, d):
         rng.choice(nodes)[2] = True
     elif kind == "registry_only":
         d["bbs"] = d.get("bbs", []) + [["u9", "ff", rng.choice([[], ["d"]]), rng.choice([[], ["q"]])]]
+    elif kind == "multi_dot_clean":
+        # a node whose name has two dots and whose FIRST segment is a registered instance: documented rule = no error
+        insts = [b[0] for b in d.get("bbs", [])]
+        src = [n[0] for n in nodes if n[1] in ("input",) + tuple(lib.GATES)]
+        if insts and src:
+            nodes.append([fresh(names, rng.choice(insts) + "." + rng.choice(["aux.0", "d.0", "x.y"])), "buf", True, [rng.choice(src)]])
+    elif kind == "dotted_instance":
+        # a registered instance whose own name contains a dot: its pins' first segment is not a registered instance
+        src = [n[0] for n in nodes if n[1] in ("input",) + tuple(lib.GATES)]
+        if src:
+            inst = fresh(names, "core.u0")
+            nodes.append([inst + ".d", "bb_input", False, [rng.choice(src)]])
+            d["bbs"] = d.get("bbs", []) + [[inst, "ff", ["d"], []]]
     elif kind == "pin_extra_fanout":
         c = by(["bb_input"])
         if c:
